@@ -1006,3 +1006,11 @@ M("C07-binary-literal-first-digit-twice", "C07", "src/cppparser/cppPreprocessor.
 M("C07-benign-binary-literal-seed-consumed", "C07", "src/cppparser/cppPreprocessor.cxx",
   "    get();\n    c = peek();\n    string bin;\n", "    get();\n    c = peek();\n    string bin = \"\";\n",
   benign=True)
+
+MUTANTS.append({"id": "C05-caller-manages-only-with-destructor", "prop": "C05", "benign": False,
+  "expect": "R05.2|make_wrapper_entry|F_caller_manages|whenever-source",
+  "edits": [("src/interrogate/functionRemap.cxx", "    iwrapper._flags |= InterrogateFunctionWrapper::F_caller_manages;\n    FunctionIndex destructor = _return_value_destructor;\n\n    if (destructor != 0) {\n",
+             "    FunctionIndex destructor = _return_value_destructor;\n\n    if (destructor != 0) {\n      iwrapper._flags |= InterrogateFunctionWrapper::F_caller_manages;\n")]})
+MUTANTS.append({"id": "C05-benign-caller-manages-after-destructor", "prop": "C05", "benign": True, "expect": None,
+  "edits": [("src/interrogate/functionRemap.cxx", "    iwrapper._flags |= InterrogateFunctionWrapper::F_caller_manages;\n    FunctionIndex destructor = _return_value_destructor;\n",
+             "    FunctionIndex destructor = _return_value_destructor;\n    iwrapper._flags |= InterrogateFunctionWrapper::F_caller_manages;\n")]})
